@@ -28,6 +28,15 @@ CHECKS["C01"] = (
     "Assumes TLC evaluates the spec correctly; the projection of ProFormaAnnotation (None and [] identified) is "
     "faithful; the text renderer of the random generator is re-checked by TLC against ProFormaText!WriteV for every event.",
     "DESIGN.md §6 C01")
+CHECKS["C11"] = (
+    "TLA+ reference operators (Annotation.tla: ReverseAnn, ShiftAnn, Slice, Piece, Concat, IsResiduePermutation) "
+    "with their laws model-checked on the bounded annotation space (MC_ProForma) + TLC trace validation of recorded "
+    "reverse/shift/shuffle/sort/slice/split calls (Trace_Annotation)",
+    "The algebraic laws of the property (involutions, slice composition, concat of pieces, residue-bag preservation) "
+    "are model-checked for the reference operators over the bounded space; every recorded call of the real code - "
+    "copy form, inplace form and string-level function - is judged by TLC against those operators.",
+    "Assumes TLC and the projection are correct. Shuffle is judged as 'some residue permutation'; intervals are "
+    "constrained only where the statement does (reverse, slice, identities).", "DESIGN.md §6 C11")
 NOT_YET = "check not built yet in this round (planned with the TLA+ technique, see DESIGN.md §6)"
 
 
